@@ -187,7 +187,7 @@ func c03Run(t *testing.T, job *c03Job) (out c03Out) {
 					fmt.Fprintf(h, "%d,%d:%d+%d/%d e=%v;", o, mb, r.Start, r.Complete, r.Len, err != nil)
 					if r.Problem != "" {
 						key := r.Problem
-						if key == "starts-after-requested-offset" && s.blocked && r.Target < p.inflight {
+						if key == "starts-after-requested-offset" && s.blocked && r.Target < p.inflight && r.Start >= p.inflight {
 							key = "flush-window-batches-hidden-by-write-buffer"
 						}
 						out.viol = &c03Viol{key, fmt.Sprintf("%s Read(offset=%d, maxBytes=%d) returned %d bytes: %s; log state %s", pass, o, mb, len(data), r.Detail, c03Layout(p))}
